@@ -194,6 +194,29 @@ func c07Monitor(s c07Scn, op c07Op, pre c07Pre, step c07Step) []Mon {
 			}
 		}
 	}
+	// ---- compositionRevisionRef on the STORED XR, for every value of the XR's update
+	// policy (this sync's inputs only): under Manual the claim's reference reaches the XR;
+	// under Automatic / unset / anything else the XR side owns the field, so the sync may
+	// leave it alone (or drop what the claim controller itself applied earlier) but can
+	// never set it - neither to the claim's value nor to anything else.
+	{
+		const k = "compositionRevisionRef"
+		pol := c07Policy(pre.XR)
+		if pol == "" {
+			pol = "unset"
+		}
+		if manual {
+			if v, ok := cmSpec[k]; ok && v != nil && (!c07Has(postSpec, k) || !c07Contains(postSpec[k], v)) {
+				add("C07:revision-not-pushed-under-manual", "spec."+k+" of the claim did not reach the stored XR although the XR's update policy is Manual")
+			}
+		} else if c07Has(postSpec, k) && (!c07Has(preXRSpec, k) || !c07Eq(postSpec[k], preXRSpec[k])) {
+			what := "a value that is neither the XR's nor the claim's"
+			if v, ok := cmSpec[k]; ok && c07Eq(postSpec[k], v) {
+				what = "the claim's value"
+			}
+			add("C07:revision-ref-flowed-to-xr-without-manual-policy", "spec."+k+" of the stored XR was set to "+what+" ("+mustJSON(postSpec[k])+", before: "+mustJSON(preXRSpec[k])+") although the XR's update policy is "+pol)
+		}
+	}
 	// marker scan: claim-only values anywhere in what was sent to / stored on the XR
 	for _, w := range xrBodies {
 		if strings.Contains(mustJSON(w.Body), "cm-only-") {
